@@ -625,13 +625,14 @@ func reverse(vs []int) []int {
 
 var c18probes = buildProbes()
 
-const c18Sizes = 6 // 0..5
+// sizes 0..5 in the quick tier, 0..12 in the thorough tier
+func c18Sizes(tier string) int { return core.Tiered(tier, 6, 13) }
 
-func C18Cases() int { return len(c18probes) * c18Sizes }
+func C18Cases(tier string) int { return len(c18probes) * c18Sizes(tier) }
 
 func RunC18(c *core.Ctx, idx int) {
-	p := c18probes[idx/c18Sizes]
-	n := idx % c18Sizes
+	p := c18probes[idx/c18Sizes(c.Tier)]
+	n := idx % c18Sizes(c.Tier)
 	var d string
 	pan, noret, msg := Try(func() { d = p.run(n) })
 	if pan || noret {
